@@ -60,14 +60,14 @@ PROPS = {
         "assumptions": ["informer caches are monotone per kind", "run objects are removed by others only after their Trial completed", "algorithm service returns fresh names"],
     },
     "C04": {
-        "prop_files": ['Katib/Props/C04.lean', 'Katib/Props/C04Quiescent.lean', 'Katib/Props/C04Schedules.lean', 'Katib/Props/C04Counters.lean'],
+        "prop_files": ['Katib/Props/C04.lean', 'Katib/Props/C04Quiescent.lean', 'Katib/Props/C04Schedules.lean', 'Katib/Props/C04Counters.lean', 'Katib/Props/C04Resume.lean'],
         "streams": [('SIM', {'quick': 240, 'thorough': 8000}), ('C04D', {'quick': 150, 'thorough': 3000})],
         "rule": "seeded random schedules of the three real reconcilers on the fake client (1-2 experiments, optionally equally named in two namespaces; maxTrialCount 1-4/unset, parallel 1-3, maxFailed, goal, three resume policies, early stopping, retain, push collector), ops = reconciles with per-kind monotone lagging views (random lag, stalled informers, one kind's cache held for several reconciles - also exactly at the Experiment copy from before its verdict), write-fault masks, abort points, algorithm reply faults (short/long/error, rules RPC error), job outcomes, metric arrival (also after the verdict), early stop, deployment ready, external removal of a completed trial's run object, a run-object-creating reconcile cut off before its status write with the job finishing before the retry; scripted RPC failures cycle through gRPC status codes; then fault-free settling to quiescence, a quiescence probe, optionally one or two budget raises each with a second settling, and optionally a teardown in which Trials are deleted and reconciled while the database call or the finalizer write fails; every op's write log and the whole store are compared with the Lean model; a case = one schedule; distinct = distinct op sequence; stream C04D: parallelTrialCount lowered right after a batch of Trials was created (optionally one of them already finished), the real deleteTrials branch, then the three real controllers to quiescence; only the outcome is judged (verdict reached, suggestionCount = requests = number of assignments after the deletion) - this branch is outside the Lean controller model",
         "trusted": ["controller-runtime fake client stands in for the kube-apiserver (rv conflicts, status subresource, AlreadyExists)",
                     "fake algorithm / early-stopping / DB-manager services", "typed reads inside a reconcile come from a snapshot (informer cache), run objects are read live"],
         "modelled": ["ReconcileExperiment.Reconcile / ReconcileSuggestion.Reconcile / ReconcileTrial.Reconcile and helpers as Katib.Ctl.expPlan / sugPlan / trialPlan",
                      "API-server semantics as Katib.Ctl.applyCall", "the op/step state machine Katib.Ctl.step"],
-        "level_text": 'C04_quiescent_verdict_partial: for every store (not only reachable ones) in which none of the three controllers has a write to issue on live reads, every run object has finished, collected metrics are stored and parse, the algorithm Deployment is ready and no Trial is early-stopped without an objective value, an Experiment with maxTrialCount carries a verdict (assumed store facts listed in the theorem: unique Trial keys, suggestionCount = |assignments|, unique assignment names, Suggestion of an unfinished Experiment not Succeeded, MetricsUnavailable Trials not Running, zero counters without Trials); no-hot-loop statements C04_no_noop_*; C04_wedge_counterexample for the excluded region; correspondence on generated schedules with fault-free settling and a quiescence probe; oracle demands a verdict at observed quiescence',
+        "level_text": 'C04_quiescent_verdict_partial: for every store (not only reachable ones) in which none of the three controllers has a write to issue on live reads, every run object has finished, collected metrics are stored and parse, the algorithm Deployment is ready and no Trial is early-stopped without an objective value, an Experiment with maxTrialCount carries a verdict (assumed store facts listed in the theorem: unique Trial keys, suggestionCount = |assignments|, unique assignment names, Suggestion of an unfinished Experiment not Succeeded, MetricsUnavailable Trials not Running, zero counters without Trials); no-hot-loop statements C04_no_noop_*; C04_wedge_counterexample for the excluded region; correspondence on generated schedules with fault-free settling and a quiescence probe; oracle demands a verdict at observed quiescence; C04_quiescent_verdict_on_schedules_resume: for an Experiment created with resume policy Never or LongRunning and an unedited maxTrialCount >= 1, on every schedule without Trial deletions, the property's own hypotheses (no controller writes any more, no job running, metrics of successful jobs in, Deployment ready, no early-stopped Trial without observation) imply a verdict; nothing else is assumed about the reached store (uses C01_total, C06_permanent, C06_unavailable_not_running, C08_names_unique_world, C04_zero_counters_without_trials, C16_longrunning_service_kept, C16_succeeded_only_after_verdict, C03_frozen_verdict_world); under FromVolume one store fact stays assumed (the Suggestion is not Succeeded)',
         "level_note": "trusted: Lean kernel; harness/check; fake client as API server; views monotone per kind; the tie between Lean model and Go controllers is differential (sampling)",
         "assumptions": ["informer caches are monotone per kind", "run objects are removed by others only after their Trial completed", "algorithm service returns fresh names"],
     },
